@@ -81,6 +81,34 @@ def run(prop, tier):
         viols = list(R.viol) + list(RL.viol)
         for case, line in RL.lines.get("RES", []):
             R.lines["RES"].append((case, line))
+        # the parameter-side limits and "more frames" once more on objects LOADED from files: group ids with gaps (placeholder groups
+        # in the middle of the table) and frame numbers that end at 65535
+        sdir = os.path.join(wd, "starts")
+        os.makedirs(sdir, exist_ok=True)
+        starts = []
+        for k_ in range(40):
+            content, L, meta = gen.gen_case(C.seed(), 993000 + k_, force=["sparse_ids"])
+            if meta["shape"]["nframes"] >= 1 and meta["shape"]["npts"] >= 1 and len(content["groups"]) >= 3 and max(g["id"] for g in content["groups"]) > len(content["groups"]) and max(g["id"] for g in content["groups"]) < 100 and "empty_analog" not in meta["variants"]:
+                p_ = os.path.join(sdir, "sparse_ids.c3d")
+                open(p_, "wb").write(c3dref.encode(content, L))
+                starts.append(("loaded_sparse_group_ids", p_))
+                break
+        c_ = gen12.base_content(first=65535 - 9, nframes=10)
+        p_ = os.path.join(sdir, "last_frame_65535.c3d")
+        open(p_, "wb").write(c3dref.encode(c_, {}))
+        starts.append(("loaded_last_frame_65535", p_))
+        started = collections.Counter()
+        for tag, sp in starts:
+            outs_ = os.path.join(wd, "limits_" + tag)
+            C.run_driver(exe, "limits", singles, outs_, args=["--pairs", "1", "--timeout", "600", "--start", sp], chunk=2)
+            RS = C.parse_out(outs_)
+            for v in RS.viol:
+                v["key"] += "|" + tag
+            viols += list(RS.viol)
+            for case, line in RS.lines.get("RES", []):
+                if "skipped_for_loaded_start" not in line:
+                    started[tag] += 1
+                    R.lines["RES"].append((case, line.replace(" saved ", " %s:saved " % tag) if " saved " in line else line))
         R.workload = dict(profile="limits", args=["--pairs", "1"])
         outcomes = collections.Counter()
         cases = []
@@ -112,7 +140,7 @@ def run(prop, tier):
         cov = dict(evaluations=len(cases) + len(paths), distinct_nontrivial=len(set(d for d, _ in cases)) + len(paths),
                    rule="one case = content at L-1, L, L+1 or far beyond one capacity limit (description 255, names 127, extents 255 for int/float/string count/string width, 255 points, 255 channels, 32767 frames, int16 extremes, 255 parameter blocks, 65535-byte record), alone (also with every custom group locked) and in pairs (both at L; one at L + one beyond); built through the API, saved, reloaded; at/below L: save must succeed and the reload must equal; beyond: save must throw or the reload must equal; plus reference-encoded files for limits only reachable through files (group descriptions, last frame 65535, 127-char names, 7 dimensions); distinct = distinct case descriptors",
                    samples=[dict(case=d, result=r) for d, r in cases[:3] + cases[-2:]], outcomes=dict(outcomes), singles=singles, pairs_run=len(cases) - singles, pairs_total=total - singles,
-                   file_limit_cases=dict(zip(what, ["ok"] * len(what))), file_limit_cases_completed=fl_ok, child_end_status=dict(R.status), exhaustive=not q,
+                   limit_cases_on_loaded_objects=dict(started), file_limit_cases=dict(zip(what, ["ok"] * len(what))), file_limit_cases_completed=fl_ok, child_end_status=dict(R.status), exhaustive=not q,
                    exhaustive_scope="the enumerated boundary table (singles always complete; pairs complete in thorough)")
         inconc = None
         if len(cases) < 2 * singles:
